@@ -861,7 +861,7 @@ pub fn run(ctx: &mut Ctx) -> Result<(), Violation> {
     }
     ctx.stage("hand-written", true, (st, None))?;
 
-    let cases = ctx.tier.pick(400, 40_000);
+    let cases = ctx.tier.cases(400, 40_000);
     let r = par_random(ctx, "random-formulas", cases, 300, |tape, st| {
         let mut t = Tape::new(tape);
         let (text, idents) = match gen_formula_text(&mut t, 5) {
@@ -885,7 +885,7 @@ pub fn run(ctx: &mut Ctx) -> Result<(), Violation> {
     ctx.stage("random-formulas-x-option-battery", false, r)?;
 
     // arbitrary combinations: channel x ordering file x any subset of -t -v -m -r -f X -b N
-    let cases = ctx.tier.pick(500, 20_000);
+    let cases = ctx.tier.cases(500, 20_000);
     let r = par_random(ctx, "random-option-subsets", cases, 320, |tape, st| {
         let mut t = Tape::new(tape);
         let (text, idents) = match gen_formula_text(&mut t, 5) {
@@ -971,7 +971,7 @@ pub fn run(ctx: &mut Ctx) -> Result<(), Violation> {
     ctx.stage("random-option-subsets", false, r)?;
 
     // wide formulas: up to 200 free variables, judged by counting instead of a truth table
-    let cases = ctx.tier.pick(1_500, 40_000);
+    let cases = ctx.tier.cases(1_500, 40_000);
     let r = par_random(ctx, "wide-formulas", cases, 260, |tape, st| {
         let mut t = Tape::new(tape);
         let w = gen_wide(&mut t);
